@@ -234,6 +234,12 @@ func (h *Hello) UnmarshalBinary(data []byte) error {
 			err = v.UnmarshalBinary(data[next:])
 			next += int(v.Len())
 			h.Elements = append(h.Elements, v)
+		default:
+			// skip an element of unknown type by its declared length
+			if e.Length < 4 {
+				return errors.New("The hello element length is invalid.")
+			}
+			next += int(e.Length)
 		}
 	}
 	return err
